@@ -156,6 +156,7 @@ theorem step_native (cfg : Cfg) (ho : WfOrigin cfg) (s : Txn) (op : Op)
   cases op with
   | commit => rfl
   | rollback => rfl
+  | commitRaise => rfl
   | get n t c => rfl
   | nameExists n => rfl
   | getNode n => rfl
